@@ -128,6 +128,8 @@ pub struct World<'a> {
     pub counter: u64,
     pub batch: bool,
     pub second_op_on_uncommitted_target: bool,
+    /// which two operations met on one un-committed target first ("update-then-delete", ...)
+    pub second_op_kind: String,
     pub commits_done: u64,
     pub saw_growth: bool,
 }
@@ -150,6 +152,7 @@ impl<'a> World<'a> {
             counter: 0,
             batch: false,
             second_op_on_uncommitted_target: false,
+            second_op_kind: String::new(),
             commits_done: 0,
             saw_growth: false,
         }
@@ -165,7 +168,7 @@ impl<'a> World<'a> {
         // still un-committed is its own diagnosis class (the API accepts it because it checks the
         // committed state only); keep it apart from failures of ordinary histories.
         let key = if self.second_op_on_uncommitted_target && (key.starts_with("C01:") || key.starts_with("C06:") || key.starts_with("C08:")) {
-            format!("{key}:second-op-on-uncommitted-target")
+            format!("{key}:second-op-on-uncommitted-target:{}", self.second_op_kind)
         } else {
             key.to_string()
         };
@@ -185,6 +188,15 @@ impl<'a> World<'a> {
     }
 
     /// Does an un-committed update/delete already target this frame?
+    /// Kind of the first un-committed operation on `id` ("update" / "delete").
+    pub fn pending_op_kind_on(&self, id: u64) -> Option<&'static str> {
+        self.model.pending.iter().find_map(|p| match p {
+            Pending::Update { spec, .. } if spec.target == id => Some("update"),
+            Pending::Delete { target } if *target == id => Some("delete"),
+            _ => None,
+        })
+    }
+
     pub fn has_pending_op_on(&self, id: u64) -> bool {
         self.model.pending.iter().any(|p| match p {
             Pending::Update { spec, .. } => spec.target == id,
@@ -408,6 +420,14 @@ impl<'a> World<'a> {
     pub fn read_blob(&mut self, id: u64) -> Result<Vec<u8>, String> {
         let mut r = self.mem().blob_reader(id).map_err(|e| e.to_string())?;
         let mut buf = Vec::new();
+        // read a few bytes, do an unrelated read through the handle, read the rest: a reader must not depend on where
+        // the handle (or another reader) left the file position
+        let mut head = [0u8; 5];
+        let n = r.read(&mut head).map_err(|e| e.to_string())?;
+        buf.extend_from_slice(&head[..n]);
+        let other = if id > 0 { id - 1 } else { id + 1 };
+        let _ = self.mem().frame_canonical_payload(other);
+        if let Ok(mut r2) = self.mem().blob_reader(other) { let mut t = [0u8; 3]; let _ = r2.read(&mut t); }
         r.read_to_end(&mut buf).map_err(|e| e.to_string())?;
         Ok(buf)
     }
